@@ -46,8 +46,10 @@ def check_program(job):
         seed, size = payload
         try:
             # every shape the generator knows, except the one that depends on an engine artefact shared with
-            # the reference engine (a fallback choice with content in the top-level flow)
-            ast = srcgen.generate(seed, size, on=[k for k in srcgen.RESTRICTED if k != "root_fallback_body"])
+            # the reference engine (a fallback choice with content in the top-level flow; an empty labelled gather
+            # directly followed by another gather)
+            ast = srcgen.generate(seed, size, on=[k for k in srcgen.RESTRICTED
+                                                  if k not in ("root_fallback_body", "empty_labelled_gather")])
         except Exception as e:
             res["genexc"] = repr(e)
             return res
